@@ -74,7 +74,7 @@ def run(case):
     base_h = None
     if case["base"]:
         if mc > 1:
-            hf = make_hash(mc, np.int32(seed))
+            hf = make_hash(mc, int(seed))
             items = [[int(hf(S(p))), int(v)] for p, v in case["base"]]
         else:
             items = [[0, int(v)] for p, v in case["base"]]
